@@ -602,6 +602,8 @@ def execute(cfg):
     os.chdir(d)
     context.APP_DATA = d  # Operator.__init__ creates its fast path below APP_DATA (default /tmp/.armi)
     try:
+        if cfg.get("kind") == "reuse":
+            return _execute_reuse(cfg)
         if cfg.get("kind") != "db":
             return _execute_one(cfg, {})
         # restart through the real MainInterface + DatabaseInterface: a complete first run writes the
@@ -622,7 +624,10 @@ def execute(cfg):
         shutil.rmtree(d, ignore_errors=True)
 
 
-def _execute_one(cfg, extra, title=None):
+_QUIET = {"inputHeightsConsideredHot": True, "db": False, "verbosity": "error", "branchVerbosity": "error"}
+
+
+def _execute_one(cfg, extra, title=None, cs=None):
     import random
 
     from armi import settings as S
@@ -632,11 +637,11 @@ def _execute_one(cfg, extra, title=None):
     obs = {"trace": [], "status": "ok"}
     _CUR["trace"] = obs["trace"]
     s = dict(cfg["settings"])
-    new = {"inputHeightsConsideredHot": True, "db": False, "verbosity": "error", "branchVerbosity": "error"}
+    new = dict(_QUIET)
     new.update(s)
     new.update(extra)
     try:
-        cs = S.Settings().modified(newSettings=new)
+        cs = cs if cs is not None else S.Settings().modified(newSettings=new)
     except Exception as e:  # schema refusal
         obs["status"] = "settings-refused"
         obs["exc"] = [type(e).__name__, str(e)[:300], _armi_frame(e.__traceback__)]
@@ -689,6 +694,121 @@ def _conversions(cs):
         q("prev00", lambda: utils.getPreviousTimeNode(0, 0, cs))
         q("fromCumNode-1", lambda: utils.getCycleNodeFromCumulativeNode(-1, cs))
         q("fromCumStep0", lambda: utils.getCycleNodeFromCumulativeStep(0, cs))
+    return out
+
+
+# ---------------------------------------------------------------------------------------------
+# re-use search: ONE Settings object taken through a sequence of cycle histories (in-place
+# assignment, or cs.modified copies of a used source); every conversion helper is called after each
+# change and must answer for the CURRENT history.
+
+HIST_KEYS = ("nCycles", "burnSteps", "cycleLength", "cycleLengths", "availabilityFactor", "availabilityFactors", "powerFractions", "cycles")
+HIST_DIMS = ("fmt", "nCycles", "steps", "avail", "pf", "clen")
+_PLAIN_STACK = [_profile(NAMES[L], "plain") for L in "ABC"]
+
+
+def _step_cfg(cfg, k):
+    """the ordinary explicit configuration that step k of a re-use sequence stands for."""
+    return {"settings": dict(cfg["other"], **cfg["seq"][k]), "stack": _PLAIN_STACK, "build": "append"}
+
+
+def _assign_history(cs, h):
+    """in-place assignment of every history setting that differs (absent = the setting's default)."""
+    for key in HIST_KEYS:
+        val = h[key] if key in h else cs.getSetting(key).default
+        if cs[key] != val:
+            cs[key] = val
+
+
+def _execute_reuse(cfg):
+    from armi import settings as S
+
+    cs = S.Settings().modified(newSettings=dict(_QUIET, **cfg["other"]))
+    out = []
+    n = len(cfg["seq"])
+    for k, h in enumerate(cfg["seq"]):
+        src = None
+        if cfg["mode"] == "inplace" or k == 0:
+            _assign_history(cs, h)
+        else:
+            src = cs
+            cs = src.modified(newSettings={key: (h[key] if key in h else src.getSetting(key).default) for key in HIST_KEYS})
+        if cfg.get("run") and k == n - 1:
+            o = _execute_one(_step_cfg(cfg, k), {}, cs=cs)  # a complete operator run on the re-used object
+        else:
+            o = {"status": "norun", "trace": [], "conv": _conversions(cs)}
+        if src is not None:
+            o["source_conv"] = _conversions(src)  # the copy must not have disturbed its source either
+        out.append(o)
+    return {"status": "reuse", "trace": [], "steps": out}
+
+
+def _judge_reuse(cfg, obs):
+    vs, events = [], 0
+    case = {k: cfg[k] for k in ("kind", "mode", "seq", "other", "run") if k in cfg}
+    seqtxt = " -> ".join(json.dumps(h, sort_keys=True) for h in cfg["seq"])
+    tag = "reused-settings" if cfg["mode"] == "inplace" else "modified-copy"
+    for k, o in enumerate(obs["steps"]):
+        sc = _step_cfg(cfg, k)
+        H, refuse = ref_history(sc["settings"])
+        where = "step %d of ONE Settings object taken through the histories %s (%s)" % (k, seqtxt, "assigned in place" if cfg["mode"] == "inplace" else "cs.modified copy of the used object")
+        got = []
+        if o["status"] != "norun":
+            got, info = judge(sc, o)
+            events += info["events"]
+        elif not refuse:
+            got = _judge_conversions(sc, H, o, case, where)
+        for v in got:
+            vs.append(core.viol(v["key"].replace("c15/", "c15/%s-" % tag, 1), v["msg"].split(" :: ")[0] + " :: " + where, case))
+        if "source_conv" in o and k > 0:
+            sp = _step_cfg(cfg, k - 1)
+            Hs, rs = ref_history(sp["settings"])
+            if not rs:
+                for v in _judge_conversions(sp, Hs, {"status": "norun", "trace": [], "conv": o["source_conv"]}, case, where):
+                    vs.append(core.viol(v["key"].replace("c15/", "c15/modified-source-", 1), v["msg"].split(" :: ")[0] + " (asked of the SOURCE after copying) :: " + where, case))
+        if vs:
+            break
+    return vs, {"refused": False, "events": events}
+
+
+def _histories(power):
+    """history settings with <= 1 history deviation from the base plus three detailed multi-deviation ones."""
+    devss = [[]] + [[(d, a)] for d in HIST_DIMS for a in ALTS[d]]
+    devss += [[("fmt", "mixed"), ("nCycles", 3), ("steps", "v102")], [("fmt", "mixed2"), ("nCycles", 3), ("steps", "v310")], [("fmt", "bslen"), ("steps", "u0")], [("nCycles", 1), ("steps", "u0")]]
+    out, seen = [], set()
+    for devs in devss:
+        cfg = materialize(_abstract(devs), power)
+        if cfg is None:
+            continue
+        h = {k: cfg["settings"][k] for k in HIST_KEYS if k in cfg["settings"]}
+        if core.jhash(h) not in seen:
+            seen.add(core.jhash(h))
+            out.append(h)
+    return out
+
+
+def _reuse_configs(ctx, power):
+    hs = _histories(power)
+    base = materialize(_abstract([]), power)
+    other = {k: v for k, v in base["settings"].items() if k not in HIST_KEYS}
+    valid = [h for h in hs if not ref_history(dict(other, **h))[1]]
+    core_set = [hs[0]] + [h for h in valid if h.get("burnSteps") == 3 or h.get("nCycles") == 3][:3] + [h for h in hs if h not in valid][:1] + [h for h in valid if h.get("cycles")][:1]
+    out = []
+
+    def add(mode, seq, run):
+        out.append({"kind": "reuse", "mode": mode, "seq": list(seq), "other": other, "run": run, "settings": dict(other, **seq[-1]), "stack": _PLAIN_STACK, "devs": [["reuse", mode, len(seq)]], "ndev": -3})
+
+    for a in hs:
+        for b in hs:
+            if a is not b:
+                add("inplace", [a, b], b in valid)  # one operator run on the re-used object after the change
+                add("modified", [a, b], False)
+    third = core_set if ctx.quick else hs
+    for a in (core_set if ctx.quick else hs):
+        for b in third:
+            for c in third:
+                if a is not b and b is not c:  # c may be a again: back to an earlier history
+                    add("inplace", [a, b, c], (not ctx.quick) and c in valid)
     return out
 
 
@@ -912,7 +1032,7 @@ def _judge_conversions(cfg, H, obs, case, where):
 
 def run_one(cfg):
     obs = execute(cfg)
-    vs, info = judge(cfg, obs)
+    vs, info = _judge_reuse(cfg, obs) if cfg.get("kind") == "reuse" else judge(cfg, obs)
     info["digest"] = core.jhash([[_sig(r), r["cycle"], r["node"]] for r in obs["trace"]])
     info["status"] = obs["status"] if not info["refused"] else "refused"
     info["observed"] = len(obs["trace"])
@@ -984,6 +1104,7 @@ def configs(ctx):
     if not ctx.quick:
         cfgs += _product_configs(ctx, power, seen)
     cfgs += _db_configs(ctx, power)
+    cfgs += _reuse_configs(ctx, power)
     return cfgs
 
 
@@ -998,7 +1119,7 @@ def run(ctx):
         info = r["info"]
         events += info["events"]
         digests.add(info["digest"])
-        ctx.count("configs_%s" % ({-1: "full_product", -2: "db_restart"}.get(cfg["ndev"], "with_%s_deviations" % cfg["ndev"])))
+        ctx.count("configs_%s" % ({-1: "full_product", -2: "db_restart", -3: "settings_reuse_sequences"}.get(cfg["ndev"], "with_%s_deviations" % cfg["ndev"])))
         ctx.count("status_" + info["status"])
         for e, n in info["hist"].items():
             ctx.count("observed_" + e, n)
